@@ -9,10 +9,10 @@ drv_C39 — operations (TAB separated; terms in the harness' canonical syntax, D
       `clause <':-'(Head,Body)>` | `error <error term>` | `noexp`
   run <id> <items joined by " ;; "> <mode> <pre> <body> <S0> <S> <template> <max>
       items: clauses `':-'(H,B)` / facts / grammar rules `'-->'(H,B)` (translated by the model).
-      mode `inline`: the query `Pre, phrase(Body,S0,S)` with a literal body (goal-expanded at
-                     compile time: the translated body runs in place);
-      mode `call`  : `Pre, phrase(G,S0,S)` with `G` bound at run time (phrase/3 translates at run
-                     time and calls the result).
+      mode `inline`/`call`: the query `Pre, phrase(Body,S0,S)` (literal body / body bound at run
+                     time): phrase/3 translates the body and CALLS the result (cut local);
+      mode `leak`  : the translated body runs in place of the phrase/3 goal, transparent to cut
+                     (NOT the reference; only used to classify a deviation of the implementation).
       Result `R <fuel> <#answers> den=<ok|DIFF> :: answers ;; … ;; exception(Ball)`: the answers of
       solving the TRANSLATION with the reference interpreter; `den=ok` says that the DIRECT
       semantics (`Dcg.den`) printed the same (Props/C39 proves it always does).
@@ -61,7 +61,7 @@ def fuels : List Nat := [32, 64, 128, 256]
 def both (f : Nat) (prog : Prog) (mode : String) (pre body S0 S : Term) : Res × Res :=
   let s0 : St := ⟨[], 0⟩
   let rp := solve f prog pre s0
-  if mode == "inline" then
+  if mode == "leak" then
     let b := (ofTerm parseFuel body 0).1
     match tr b S0 S with
     | .error _ => (Res.oofR, Res.oofR)
